@@ -221,6 +221,59 @@ def run(ctx):
         elif not torch.allclose(c, im, atol=2e-3) or m.shape != im.shape or not torch.allclose(m, im, atol=2e-3):
             ctx.violation('sRGB -> Lab -> sRGB (or the colour transfer of an image onto itself) does not return the %dx%d image' % (hh, ww), recl,
                           {'what': 'lab_roundtrip', 'fn': 'image'})
+    # ---- a conversion is a function of the pixel VALUES, not of how the image lies in memory: the same image handed over as a view with other
+    # strides (spatial axes exchanged in memory, channels-last memory format, a window of a larger tensor, a flipped view, a batch made by expand)
+    # gives the same result as the contiguous copy
+    hvs = None
+    try:
+        hvs = CC.display_color_hvs(read_spectrum='tensor', primaries_spectrum=torch.rand(3, 301, generator=torch.Generator().manual_seed(5)))
+    except Exception:
+        pass
+    fns = [('rgb_2_ycrcb', CC.rgb_2_ycrcb), ('ycrcb_2_rgb', CC.ycrcb_2_rgb), ('rgb_to_linear_rgb', CC.rgb_to_linear_rgb),
+           ('linear_rgb_to_rgb', CC.linear_rgb_to_rgb), ('linear_rgb_to_xyz', CC.linear_rgb_to_xyz), ('xyz_to_linear_rgb', CC.xyz_to_linear_rgb),
+           ('rgb_to_hsv', CC.rgb_to_hsv), ('hsv_to_rgb', CC.hsv_to_rgb), ('srgb_to_lab', CC.srgb_to_lab), ('lab_to_srgb', CC.lab_to_srgb)]
+    if hvs is not None:
+        fns += [('display_color_hvs.primaries_to_lms', hvs.primaries_to_lms), ('display_color_hvs.second_to_third_stage', hvs.second_to_third_stage)]
+    g = torch.Generator().manual_seed(ctx.seed + 77)
+    for (hh, ww) in ((4, 6), (5, 5)):
+        base4 = torch.rand(2, 3, hh, ww, generator=g) * 0.9 + 0.05
+
+        def views(x):
+            big = torch.zeros(x.shape[:-2] + (x.shape[-2] + 3, x.shape[-1] + 2))
+            big[..., 1:1 + x.shape[-2], 2:2 + x.shape[-1]] = x
+            out = [('spatial axes exchanged in memory', x.transpose(-1, -2).contiguous().transpose(-1, -2)),
+                   ('window of a larger tensor', big[..., 1:1 + x.shape[-2], 2:2 + x.shape[-1]]),
+                   ('flipped view', torch.flip(torch.flip(x, dims=[-1]).contiguous(), dims=[-1]) if False else x.flip(-1).contiguous().flip(-1))]
+            if x.dim() == 4:
+                out.append(('channels-last memory format', x.contiguous(memory_format=torch.channels_last)))
+                out.append(('all axes reversed in memory', x.permute(3, 2, 1, 0).contiguous().permute(3, 2, 1, 0)))
+            else:
+                out.append(('all axes reversed in memory', x.permute(2, 1, 0).contiguous().permute(2, 1, 0)))
+            return out
+        for name, f in fns:
+            for x in (base4, base4[0].clone()):
+                try:
+                    want = f(x.clone())
+                except Exception:
+                    continue
+                for vname, xv in views(x):
+                    ctx.case(('memory_layout', name, vname, x.dim(), hh), True)
+                    ctx.count('memory_layout/' + vname)
+                    if not torch.equal(xv, x):
+                        continue
+                    try:
+                        got = f(xv)
+                    except Exception as e:
+                        ctx.violation('%s raises %r for a %s image given as a view (%s) although it accepts the contiguous copy'
+                                      % (name, e, 'x'.join(map(str, x.shape)), vname), {'fn': name, 'view': vname, 'shape': list(x.shape)},
+                                      {'what': 'memory_layout', 'fn': name})
+                        break
+                    if got.shape != want.shape or not torch.allclose(got, want, atol=1e-5, rtol=1e-5, equal_nan=True):
+                        ctx.violation('%s of a %s image given as a view (%s) differs from the result for the contiguous copy of the same pixels '
+                                      '(max difference %.3g)' % (name, 'x'.join(map(str, x.shape)), vname,
+                                                                 float((got - want).abs().max()) if got.shape == want.shape else float('nan')),
+                                      {'fn': name, 'view': vname, 'shape': list(x.shape)}, {'what': 'memory_layout', 'fn': name})
+                        break
     # ---- executable tie of the regenerated TENSOR-LEVEL definitions (layouts, HSV, LMS pipeline) on whole images
     from .gencolour import check_generated_colour
     check_generated_colour(ctx)
